@@ -46,18 +46,7 @@ pub(crate) fn on_event() {
 pub(crate) fn on_finish(events: &[Event]) {
     LAST_EVENT_COUNT.with(|c| c.set(events.len()));
     if KEEP_EVENTS.with(|k| k.get()) {
-        let raw = events
-            .iter()
-            .map(|e| match e {
-                Event::Start {
-                    kind,
-                    forward_parent,
-                } => ("start", *kind as u16, 0u8, *forward_parent),
-                Event::Finish => ("finish", 0, 0, None),
-                Event::Token { kind, n_raw_tokens } => ("token", *kind as u16, *n_raw_tokens, None),
-                Event::Error { .. } => ("error", 0, 0, None),
-            })
-            .collect();
+        let raw = last_events_from(events);
         LAST_EVENTS.with(|l| *l.borrow_mut() = raw);
     }
 }
@@ -75,4 +64,97 @@ pub fn last_event_count() -> usize {
 /// Raw events of the last finished parse on this thread (if `keep_events(true)`).
 pub fn last_events() -> Vec<RawEvent> {
     LAST_EVENTS.with(|l| l.borrow().clone())
+}
+
+// ---------------------------------------------------------------------------------------------
+// Marker API driver: runs a given sequence of `Parser` / `Marker` calls on a real `Parser`, so that
+// the parser <-> tree-builder protocol can be exercised by clients other than the grammar.
+
+/// One call of the `Parser` / `Marker` / `CompletedMarker` API.
+#[derive(Clone, Debug)]
+pub enum MarkerOp {
+    /// `Parser::start`; the new marker becomes the innermost live marker.
+    Start,
+    /// `Marker::complete(kind)` on the innermost live marker.
+    Complete(crate::SyntaxKind),
+    /// `Marker::abandon` on the innermost live marker.
+    Abandon,
+    /// `CompletedMarker::precede` on the node completed last at the current nesting level.
+    Precede,
+    /// `CompletedMarker::extend_to(m)`: the node completed last inside the innermost live marker `m`
+    /// is extended to the left up to `m`.
+    ExtendTo,
+    /// Consume one token (`bump_any`), or a composite token made of 2 / 3 raw tokens (`bump(kind)`).
+    Bump(u8, crate::SyntaxKind),
+    /// `Parser::error`.
+    Error,
+}
+
+/// Run `ops` on a fresh `Parser` over `input` and return the raw events and the processed `Output`.
+/// All markers must have been completed or abandoned at the end.
+pub fn drive(input: &crate::Input, ops: &[MarkerOp]) -> (Vec<RawEvent>, crate::Output) {
+    use crate::parser::{CompletedMarker, Marker, Parser};
+    let mut p = Parser::new(input);
+    let mut stack: Vec<Marker> = Vec::new();
+    let mut lastcm: Vec<Option<CompletedMarker>> = vec![None];
+    for op in ops {
+        match op {
+            MarkerOp::Start => {
+                stack.push(p.start());
+                lastcm.push(None);
+            }
+            MarkerOp::Complete(kind) => {
+                let m = stack.pop().expect("no live marker");
+                lastcm.pop();
+                let cm = m.complete(&mut p, *kind);
+                *lastcm.last_mut().unwrap() = Some(cm);
+            }
+            MarkerOp::Abandon => {
+                let m = stack.pop().expect("no live marker");
+                let inner = lastcm.pop().unwrap();
+                m.abandon(&mut p);
+                if inner.is_some() {
+                    *lastcm.last_mut().unwrap() = inner;
+                }
+            }
+            MarkerOp::Precede => {
+                let cm = lastcm.last_mut().unwrap().take().expect("no completed node to precede");
+                stack.push(cm.precede(&mut p));
+                lastcm.push(None);
+            }
+            MarkerOp::ExtendTo => {
+                let m = stack.pop().expect("no live marker");
+                let cm = lastcm.pop().unwrap().expect("no completed node to extend");
+                let cm = cm.extend_to(&mut p, m);
+                *lastcm.last_mut().unwrap() = Some(cm);
+            }
+            MarkerOp::Bump(n, kind) => {
+                if *n <= 1 {
+                    p.bump_any();
+                } else {
+                    p.bump(*kind);
+                }
+            }
+            MarkerOp::Error => p.error("driver error"),
+        }
+    }
+    assert!(stack.is_empty(), "oq3_verif: live markers left");
+    let events = p.finish();
+    let raw = last_events_from(&events);
+    (raw, crate::event::process(events))
+}
+
+fn last_events_from(events: &[Event]) -> Vec<RawEvent> {
+    events
+        .iter()
+        .map(|e| match e {
+            Event::Start {
+                kind,
+                forward_parent,
+            } => ("start", *kind as u16, 0u8, *forward_parent),
+            Event::Finish => ("finish", 0, 0, None),
+            Event::Token { kind, n_raw_tokens } => ("token", *kind as u16, *n_raw_tokens, None),
+            Event::Error { .. } => ("error", 0, 0, None),
+        })
+        .collect()
 }
